@@ -798,7 +798,26 @@ fn gen_macro_program(rng: &mut Rng) -> String {
             }
         }
         toks.push(";".into());
-        lines.push(join_tokens(&toks, g.rng));
+        let mut site = join_tokens(&toks, g.rng);
+        if g.rng.chance(1, 4) {
+            // an invocation may be spread over several lines: a new-line is white space like any other (6.10.3p10),
+            // also inside an empty argument and between the macro name and its parenthesis
+            let mut spread = String::new();
+            let chars: Vec<char> = site.chars().collect();
+            for (i, c) in chars.iter().enumerate() {
+                let next_is_hash = chars.get(i + 1) == Some(&'#');
+                if *c == ' ' && !next_is_hash && g.rng.chance(1, 3) {
+                    spread.push_str(if g.rng.chance(1, 2) { "\n" } else { "\n    " });
+                } else {
+                    spread.push(*c);
+                    if (*c == '(' || *c == ',') && !next_is_hash && g.rng.chance(1, 8) {
+                        spread.push('\n');
+                    }
+                }
+            }
+            site = spread;
+        }
+        lines.push(site);
         nsites += 1;
     }
     let mut s = lines.join("\n");
